@@ -37,7 +37,15 @@
    operations between the two halves of any number of requests in flight.
    Between the two express() calls the loop reads and writes nothing of its
    own state, so where exactly a request is suspended (in the executor or in
-   the assessor) is not part of the model's input. *)
+   the assessor) is not part of the model's input.
+
+   Reconfiguration (Section Reconf).  The loop object is live: every constructor
+   argument is kept in a public attribute that run() reads again at each
+   request.  A history with reconfiguration [rop] may assign gate_logic,
+   assessor.name, enable_cache, cache_ttl and the three breaker settings
+   ([RSet]) between any two operations, also while requests are in flight; the
+   configuration is then part of the state ([rstate]) and every event records
+   the configuration it was produced under.  [run_case] runs this layer. *)
 From Coq Require Import ZArith List Bool.
 From Verif Require Import Common.Corr.
 Import ListNotations.
@@ -535,6 +543,104 @@ Definition xdone_at (e : xev) : option Z :=
   end.
 
 (* ---------------------------------------------------------------------- *)
+(* reconfiguration of a live loop object                                    *)
+
+(* Everything the constructor takes is kept in a PUBLIC attribute that run() reads again at every
+   request (self.gate_logic at lines 208/237/304.., self.assessor.name at 289, self.enable_cache at
+   214/256, self.cache_ttl at 499, self.enable_circuit_breaker at 201, self.failure_threshold at
+   487, self.recovery_timeout at 446): a caller may assign any of them between two operations of a
+   history - also while requests are in flight.  [setting] is one such assignment. *)
+Inductive setting :=
+| SLogic (l : logic)          (* loop.gate_logic = l *)
+| SAssessor (n : str)         (* loop.assessor.name = n *)
+| SCache (b : bool)           (* loop.enable_cache = b *)
+| STtl (t : Z)                (* loop.cache_ttl = timedelta(..) *)
+| SBreaker (b : bool)         (* loop.enable_circuit_breaker = b *)
+| SThreshold (n : Z)          (* loop.failure_threshold = n *)
+| SRecovery (t : Z).          (* loop.recovery_timeout = timedelta(..) *)
+
+Definition apply_setting (s : setting) (cb : config * bconfig) : config * bconfig :=
+  let '(cf, bc) := cb in
+  match s with
+  | SLogic l => (mkConfig l (cf_assessor cf) (cf_cache cf) (cf_ttl cf) (cf_cap cf), bc)
+  | SAssessor n => (mkConfig (cf_logic cf) n (cf_cache cf) (cf_ttl cf) (cf_cap cf), bc)
+  | SCache b => (mkConfig (cf_logic cf) (cf_assessor cf) b (cf_ttl cf) (cf_cap cf), bc)
+  | STtl t => (mkConfig (cf_logic cf) (cf_assessor cf) (cf_cache cf) t (cf_cap cf), bc)
+  | SBreaker b => (cf, mkBcfg b (bc_threshold bc) (bc_recovery bc))
+  | SThreshold n => (cf, mkBcfg (bc_enabled bc) n (bc_recovery bc))
+  | SRecovery t => (cf, mkBcfg (bc_enabled bc) (bc_threshold bc) t)
+  end.
+
+(* an operation of a history with reconfiguration *)
+Inductive rop :=
+| RX (o : xop)                (* any operation of an overlapping history *)
+| RSet (s : setting).         (* an assignment to a configuration attribute *)
+
+(* what the harness sees of one [rop], together with the configuration IN FORCE when it was
+   carried out (for an assignment: from then on) *)
+Inductive rev :=
+| RvOp (cf : config) (bc : bconfig) (e : xev)
+| RvSet (cf : config) (bc : bconfig) (n : nat).       (* len(_cache): an assignment touches nothing else *)
+
+(* one loop object: its current configuration, and what it holds *)
+Definition rstate := (config * bconfig * xstate)%type.
+
+Definition rev_config (e : rev) : config * bconfig :=
+  match e with RvOp cf bc _ => (cf, bc) | RvSet cf bc _ => (cf, bc) end.
+
+(* the configuration after the assignments among [ops] *)
+Fixpoint config_after (cb : config * bconfig) (ops : list rop) : config * bconfig :=
+  match ops with
+  | [] => cb
+  | RX _ :: rest => config_after cb rest
+  | RSet s :: rest => config_after (apply_setting s cb) rest
+  end.
+
+Section Reconf.
+  Variable H : str -> str.
+  Variable K : str -> str.
+
+  Definition rstep (r : rstate) (o : rop) : rstate * rev :=
+    let '(cf, bc, x) := r in
+    match o with
+    | RX a => let '(x', e) := xstep H K cf bc x a in ((cf, bc, x'), RvOp cf bc e)
+    | RSet s => let '(cf', bc') := apply_setting s (cf, bc) in
+                ((cf', bc', x), RvSet cf' bc' (length (fst (fst x))))
+    end.
+
+  Fixpoint rtrace_from (r : rstate) (ops : list rop) : list rev :=
+    match ops with
+    | [] => []
+    | o :: rest => let '(r', e) := rstep r o in e :: rtrace_from r' rest
+    end.
+
+  Definition rtrace (cf : config) (bc : bconfig) (ops : list rop) : list rev :=
+    rtrace_from (cf, bc, x0) ops.
+
+  (* two loop objects, one interleaved history with reconfiguration *)
+  Fixpoint rsys_from (r0 r1 : rstate) (tops : list (bool * rop)) : list (bool * rev) :=
+    match tops with
+    | [] => []
+    | (b, o) :: rest =>
+        if b then let '(r1', e) := rstep r1 o in (b, e) :: rsys_from r0 r1' rest
+        else let '(r0', e) := rstep r0 o in (b, e) :: rsys_from r0' r1 rest
+    end.
+
+  Definition rsys_trace (cf0 cf1 : config) (bc0 bc1 : bconfig) (tops : list (bool * rop)) : list (bool * rev) :=
+    rsys_from (cf0, bc0, x0) (cf1, bc1, x0) tops.
+End Reconf.
+
+(* the (configuration in force, request, reply) of an event, if it carries a reply *)
+Definition rreply (e : rev) : option (config * req * reply) :=
+  match e with
+  | RvOp cf _ x => match xreply x with Some (q, rp) => Some (cf, q, rp) | None => None end
+  | RvSet _ _ _ => None
+  end.
+
+Definition rdone_at (e : rev) : option Z :=
+  match e with RvOp _ _ x => xdone_at x | RvSet _ _ _ => None end.
+
+(* ---------------------------------------------------------------------- *)
 (* codes shared with the harness                                            *)
 
 Definition action_code (a : action) : Z :=
@@ -588,19 +694,21 @@ Definition covers (t : list (Z * Z * Z * list Z)) : bool :=
 Inductive cop :=
 | CReq (p : str) (t : Z) (z y : verdict) | CClear | CObserve | CReset
 | CBegin (id : Z) (p : str) (t : Z) (z y : verdict)     (* run(p) starts at clock t ... *)
-| CEnd (id : Z) (t : Z).                                (* ... and, if it went to the agents, returns at clock t *)
+| CEnd (id : Z) (t : Z)                                 (* ... and, if it went to the agents, returns at clock t *)
+| CSet (s : setting).                                   (* an assignment to a configuration attribute *)
 
-Definition xop_of (o : cop) : xop :=
+Definition rop_of (o : cop) : rop :=
   match o with
-  | CReq p t z y => XAtomic (OReq (mkReq p t z y))
-  | CClear => XAtomic OClear
-  | CObserve => XAtomic OObserve
-  | CReset => XAtomic OReset
-  | CBegin id p t z y => XBegin id (mkReq p t z y)
-  | CEnd id t => XEnd id t
+  | CReq p t z y => RX (XAtomic (OReq (mkReq p t z y)))
+  | CClear => RX (XAtomic OClear)
+  | CObserve => RX (XAtomic OObserve)
+  | CReset => RX (XAtomic OReset)
+  | CBegin id p t z y => RX (XBegin id (mkReq p t z y))
+  | CEnd id t => RX (XEnd id t)
+  | CSet s => RSet s
   end.
 
-(* configuration of one loop object: gate logic, assessor name, enable_cache, ttl,
+(* configuration of one loop object AT CONSTRUCTION: gate logic, assessor name, enable_cache, ttl,
    enable_circuit_breaker, failure_threshold, recovery_timeout *)
 Definition lcfg := (logic * str * bool * Z * bool * Z * Z)%type.
 
@@ -637,6 +745,15 @@ Definition xev_obs (cf0 cf1 : config) (x : bool * xev) : list Z :=
   | EvNoSuch _ n => [-2; Z.of_nat n]
   end.
 
+(* an assignment: [-4; cache size]; everything else as before, the token's issuer being compared with
+   the assessor's name at that moment *)
+Definition rev_obs (x : bool * rev) : list Z :=
+  let '(b, e) := x in
+  match e with
+  | RvOp cf _ a => xev_obs cf cf (b, a)
+  | RvSet _ _ n => [-4; Z.of_nat n]
+  end.
+
 Definition config_of (l : lcfg) (cap : nat) : config :=
   let '(lg, nm, en, ttl, _, _, _) := l in mkConfig lg nm en ttl cap.
 
@@ -647,6 +764,6 @@ Definition run_case (c : case) : list (list Z) :=
   let '(l0, l1, cap, tops) := c in
   let cf0 := config_of l0 cap in
   let cf1 := config_of l1 cap in
-  map (xev_obs cf0 cf1)
-      (xsys_trace (fun p => p) (fun p => p) cf0 cf1 (bconfig_of l0) (bconfig_of l1)
-                  (map (fun x : bool * cop => (fst x, xop_of (snd x))) tops)).
+  map rev_obs
+      (rsys_trace (fun p => p) (fun p => p) cf0 cf1 (bconfig_of l0) (bconfig_of l1)
+                  (map (fun x : bool * cop => (fst x, rop_of (snd x))) tops)).
